@@ -28,7 +28,7 @@ ASSUMPTIONS = [
     "termination restated as a bound: at most 200 resampling rounds per step (the correct algorithm needs more with probability < 2^-190); wall-clock watchdog firing = inconclusive",
     "density clause judged for |gamma| >= 1e-3 only (statement: above rounding level); at zero force only bound, symmetry-free, and termination are judged",
 ]
-REQUIRED = {"steps": 1500, "steps_huge_force": 100, "steps_zero_force": 50, "steps_per_coordinate_delta": 100, "ks_tests": 12, "rounds_observed": 1500, "adaptive_steps": 50}
+REQUIRED = {"steps": 1500, "steps_huge_force": 100, "steps_zero_force": 50, "steps_per_coordinate_delta": 100, "ks_tests": 12, "rounds_observed": 1500, "adaptive_steps": 50, "masses_updated_after_construction": 100}
 SHARD_TIMEOUT = {"quick": 900, "thorough": 3000}
 MAX_ROUNDS = 200
 
@@ -256,6 +256,14 @@ def run_hostile(spec, rec):
         wit = {"natoms": n, "force_mode": mode, "force_abs_max": float(np.abs(forces).max()), "delta_kind": dkind, "T": T, "power_kind": pkind, "adaptive": adaptive}
         try:
             drv = make_fb(rng, n, forces, delta, T, power, adaptive=adaptive, masses=masses)
+            if rng.random() < 0.35:
+                # masses changed after construction through the public update_masses() (isotope / species change),
+                # with or without re-assigning the mass-scaling power afterwards
+                drv.atoms.set_masses(rng.uniform(1, 250, n))
+                drv.update_masses()
+                rec.count("masses_updated_after_construction")
+                if rng.random() < 0.3 and power is not None:
+                    drv.masses_scaling_power = power
             for _ in range(3):
                 drv.step()
                 rec.evaluations += 1
